@@ -123,7 +123,7 @@ _STATE_CNT = re.compile(r"(\d+) states generated, (\d+) distinct states found")
 
 
 def _java(args, env=None, timeout=None, heap="2g", gc="-XX:+UseSerialGC", props=()):
-    cmd = ["java", f"-Xmx{heap}", gc, "-XX:TieredStopAtLevel=4", *props, "-cp", TLA_CP, "tlc2.TLC", *args]
+    cmd = ["java", f"-Xmx{heap}", "-Xss512m", gc, *props, "-cp", TLA_CP, "tlc2.TLC", *args]
     return subprocess.run(cmd, env=env, capture_output=True, text=True, timeout=timeout)
 
 
@@ -248,6 +248,18 @@ def _collect_printt(out: str):
         i += 1
 
 
+def _tlc_error_text(out: str) -> str:
+    """the informative part of a failed TLC run: error messages and expression positions, not the state dump"""
+    keep = []
+    for ln in out.splitlines():
+        if ln.startswith("State ") or ln.startswith("l = ") or not ln.strip():
+            continue
+        if ln.startswith(("Semantic processing", "Linting of", "Parsing file")):
+            continue
+        keep.append(ln)
+    return "\n".join(keep)[-4000:]
+
+
 class TraceResult:
     def __init__(self):
         self.verdicts = []   # (record id, [clause names], [attribution])
@@ -294,7 +306,7 @@ def validate_trace(spec: str, cfg_text: str, trace_file: Path, workdir: Path, ti
         raise MachineryFailure("verdict lines lost while parsing TLC output")
     ok = "Model checking completed. No error has been found." in out
     if not ok:
-        raise MachineryFailure(f"TLC did not accept trace {trace_file} (spec {spec}):\n" + out[-3000:] + r.stderr[-1000:])
+        raise MachineryFailure(f"TLC did not accept trace {trace_file} (spec {spec}):\n" + _tlc_error_text(out) + r.stderr[-1000:])
     res.records = res.stats.get("n", 0) if isinstance(res.stats, dict) else 0
     return res
 
